@@ -58,7 +58,48 @@ fn exec<const N: usize>(ops: &[Op]) -> Option<(String, String)> {
 
 fn enc(ops: &[Op]) -> String { ops.iter().map(|(o, x, y)| format!("{}{}:{}", o, x, y)).collect::<Vec<_>>().join(",") }
 
+/// "for every capacity": dense sets on many-word bitsets (patterns that put hundreds of members at the same position of their words)
+fn big_case<const N: usize>(pattern: u64) -> Option<(String, String)> {
+    let r = guarded(|| {
+        let mut b = Bitset::<N>::new();
+        let mut s: BTreeSet<usize> = BTreeSet::new();
+        for i in 0..64 * N {
+            let on = match pattern { 0 => true, 1 => i % 64 < 8, 2 => i % 64 >= 56, 3 => i % 3 != 0, 4 => (i / 64) % 2 == 0, _ => i % 64 == 63 || i % 64 == 0 };
+            if on { b.set(i); s.insert(i); }
+        }
+        let mut other = Bitset::<N>::new();
+        let mut os: BTreeSet<usize> = BTreeSet::new();
+        for i in (0..64 * N).step_by(5) { other.set(i); os.insert(i); }
+        let chk = |what: &str, b: &Bitset<N>, s: &BTreeSet<usize>| -> Option<(String, String)> {
+            if b.count() != s.len() { return Some((format!("{}: count() = {}", what, b.count()), format!("{}", s.len()))); }
+            let bits: Vec<usize> = b.iter_bits().collect();
+            if bits != s.iter().cloned().collect::<Vec<_>>() { return Some((format!("{}: iter_bits() yields {} indices", what, bits.len()), format!("the {} members in ascending order", s.len()))); }
+            for i in 0..64 * N { if b.test(i) != s.contains(&i) { return Some((format!("{}: test({}) = {}", what, i, b.test(i)), format!("{}", s.contains(&i)))); } }
+            None
+        };
+        if let Some(x) = chk("dense set", &b, &s) { return Some(x); }
+        let (a, o, x) = (&b & &other, &b | &other, &b ^ &other);
+        if let Some(e) = chk("&", &a, &s.intersection(&os).cloned().collect()) { return Some(e); }
+        if let Some(e) = chk("|", &o, &s.union(&os).cloned().collect()) { return Some(e); }
+        if let Some(e) = chk("^", &x, &s.symmetric_difference(&os).cloned().collect()) { return Some(e); }
+        let mut t = b.clone(); t &= &other; if !(t == a) { return Some(("&= differs from &".into(), "equal".into())); }
+        let mut t = b.clone(); t |= &other; if !(t == o) { return Some(("|= differs from |".into(), "equal".into())); }
+        let mut t = b.clone(); t ^= &other; if !(t == x) { return Some(("^= differs from ^".into(), "equal".into())); }
+        let n = !b.clone();
+        if let Some(e) = chk("!", &n, &(0..64 * N).filter(|i| !s.contains(i)).collect()) { return Some(e); }
+        None
+    });
+    match r { Ok(x) => x, Err(e) => Some((e, "no panic".into())) }
+}
+
 pub fn run(seed: u64, replay: Option<String>) -> Outcome {
+    if let Some(r) = &replay {
+        if let Some(rest) = r.strip_prefix("big;") {
+            let p: Vec<u64> = rest.split(';').map(|x| x.parse().unwrap_or(0)).collect();
+            let c = match p[0] { 4 => big_case::<4>(p[1]), 10 => big_case::<10>(p[1]), 33 => big_case::<33>(p[1]), _ => big_case::<40>(p[1]) };
+            return Outcome { cex: c.map(|(o, e)| Cex { input: r.clone(), observed: o, expected: e }), cases: 1 };
+        }
+    }
     if let Some(r) = replay {
         let body = r.split('|').last().unwrap_or("").to_string();
         let ops: Vec<Op> = body.split(',').filter(|x| !x.is_empty()).map(|o| { let c = o.chars().next().unwrap(); let p: Vec<u64> = o[1..].split(':').map(|x| x.parse().unwrap_or(0)).collect(); (c, p[0], *p.get(1).unwrap_or(&0)) }).collect();
@@ -68,6 +109,13 @@ pub fn run(seed: u64, replay: Option<String>) -> Outcome {
     }
     let mut rng = Lcg(seed ^ 0xc12);
     let mut cases = 0;
+    for pat in 0..6u64 {
+        for n in [4u64, 10, 33, 40] {
+            cases += 1;
+            let c = match n { 4 => big_case::<4>(pat), 10 => big_case::<10>(pat), 33 => big_case::<33>(pat), _ => big_case::<40>(pat) };
+            if let Some((o, e)) = c { return Outcome { cex: Some(Cex { input: format!("big;{};{}", n, pat), observed: format!("N={}: {}", n, o), expected: e }), cases }; }
+        }
+    }
     let idx = [0u64, 1, 62, 63, 64, 65, 126, 127];
     let words = [0u64, 1, u64::MAX, 1 << 63, 0x8000_0000_0000_0001, 0xAAAA_AAAA_AAAA_AAAA];
     for _ in 0..4000 {
